@@ -25,12 +25,18 @@ BOUNDS = {
     "thorough": "line L=12 <=3 genes, L=10 <=4 genes; ring L=9 <=3 genes, L=7 <=4 genes, L=12 <=2 genes; build-order BFS depth 8",
 }
 REQUIRED_BUCKETS = {t: ["bfs:gene-added-after-regions", "lookup:nested-genes", "lookup:identical-start", "lookup:bridging-gene", "lookup:bridging-query",
-                        "lookup:overlapping-differs-from-contained"] for t in ("quick", "thorough")}
+                        "lookup:overlapping-differs-from-contained", "lookup:intron-genes"] for t in ("quick", "thorough")}
 N_CHUNKS = 16
 
 
-def gene_universe(L, circular):
+def gene_universe(L, circular, introns=False):
     out = [g for g in simple(L, 1) if len(g) >= 3]
+    if introns:
+        # two-exon genes with an intron (coding length >= 3): their start-to-end span exceeds their length
+        from antismash.common.secmet.locations import CompoundLocation as C, FeatureLocation as F  # pylint: disable=import-outside-toplevel
+        for s1, e1, s2, e2 in itertools.combinations(range(L + 1), 4):
+            if (e1 - s1) + (e2 - s2) >= 3:
+                out.append(C([F(s1, e1, 1), F(s2, e2, 1)]))
     if circular:
         for strand in (1, -1):
             out.extend(g for g in bridging(L, strand) if len(g) >= 3)
@@ -39,9 +45,9 @@ def gene_universe(L, circular):
 
 def shards(tier):
     if tier == "quick":
-        plans = [(False, 9, 3), (True, 7, 3), (True, 10, 2)]
+        plans = [(False, 9, 3), (True, 7, 3), (True, 10, 2), (False, -8, 2)]   # negative L: with intron-containing genes
     else:
-        plans = [(False, 12, 3), (False, 10, 4), (True, 9, 3), (True, 7, 4), (True, 12, 2)]
+        plans = [(False, 12, 3), (False, 10, 4), (True, 9, 3), (True, 7, 4), (True, 12, 2), (False, -10, 2), (True, -8, 2)]
     out = [["lookup", circ, L, k, chunk] for circ, L, k in plans for chunk in range(N_CHUNKS)]
     depth = 6 if tier == "quick" else 8
     out += [["bfs", False, depth], ["bfs", True, depth]]
@@ -81,7 +87,7 @@ def check_lookup(L, circular, genes, query, overlapping, built=None):
             # genes not spanning the origin must come in the record's own order; an origin-spanning gene may come
             # first or last (it precedes position 0 and follows position L-1; the repo's tests pin "last" when only
             # its pre-origin part is reached)
-            linear = {g.get_name() for g in exp if len(g.location.parts) == 1}
+            linear = {g.get_name() for g in exp if not g.location.crosses_origin()}
             if [n for n in got_names if n in linear] != [n for n in exp_names if n in linear]:
                 fails.append((f"lookup-order-{tag}", f"code={got_names} ref={exp_names}"))
         else:
@@ -109,7 +115,9 @@ def run_shard(shard):
         res.outcomes[("bfs", shard[1], states)] += 1
         return res
     _, circular, L, k, chunk = shard
-    universe = gene_universe(L, circular)
+    introns = L < 0
+    L = abs(L)
+    universe = gene_universe(L, circular, introns)
     queries = u_loc(L, (1,), with_bridging=circular)
     index = 0
     for size in range(1, k + 1):
@@ -122,7 +130,7 @@ def run_shard(shard):
             sets = [R.bases(g) for g in genes]
             nested = any(a < b for a in sets for b in sets)
             same_start = len({int(g.start) for g in genes if len(g.parts) == 1}) < sum(1 for g in genes if len(g.parts) == 1)
-            has_bridge = any(len(g.parts) > 1 for g in genes)
+            has_bridge = any(len(g.parts) > 1 and int(g.parts[0].start) > int(g.parts[-1].start) for g in genes)
             for query in queries:
                 exps = {}
                 for overlapping in (False, True):
@@ -148,6 +156,8 @@ def run_shard(shard):
                     res.buckets["lookup:identical-start"] += 1
                 if has_bridge:
                     res.buckets["lookup:bridging-gene"] += 1
+                if introns:
+                    res.buckets["lookup:intron-genes"] += 1
     return res
 
 
